@@ -23,12 +23,18 @@ func VerifC14Response(k int) {
 	wroteAny := false
 	// a bodiless response (HEAD, 304) may legitimately declare the length of the entity it does not send
 	declared := []string{"", "1", "4", "9", "1000000"}[verifrt.Choice("declaredContentLength", 5)]
+	interimFirst := verifrt.Bool("interim103BeforeTheFinalStatus")
 	h := mw(http.HandlerFunc(func(w http.ResponseWriter, r *http.Request) {
 		w.Header().Set("Content-Type", "text/plain")
 		ref.Header().Set("Content-Type", "text/plain")
 		if declared != "" {
 			w.Header().Set("Content-Length", declared)
 			ref.Header().Set("Content-Length", declared)
+		}
+		if interimFirst {
+			// an informational response precedes the final one (as ReverseProxy forwards a backend's 103)
+			w.WriteHeader(http.StatusEarlyHints)
+			ref.WriteHeader(http.StatusEarlyHints)
 		}
 		for i := 0; i < k; i++ {
 			switch verifrt.Choice("call", 4) {
